@@ -434,6 +434,107 @@ def stage_replay(tier, dump=None, name="replay", universe="3"):
                   os.environ.get("VERIF_SEED", "0"), go)
 
 
+SHAPES = ("plainkey", "plainval", "padded")
+SHAPE_BIN = os.path.join(HARNESS, "target-shapes", "bin")
+
+
+def stage_shapes(tier):
+    """type shapes: the instrumented key / value types rebuilt (cargo features of the harness)
+    without drop glue for the key, without drop glue for the value, and with a layout under
+    which size_of::<Entry<K, V>>() exceeds the sizes of its parts; the covering tours of the core
+    model and of the iterator model are replayed with each of them.  The shapes keep
+    entry_size(k, v) = Overhead + heap sizes, so TLC's expectations apply unchanged."""
+    import stages_ext
+    dumps = [("core", core_dump(tier), "3"),
+             ("iter", stage_dump(tier, module="MC_Iter.tla", base="MC_IterDump", name="dump-iter",
+                                 segments=(("forget", 1500 if tier == "quick" else 4000),)), "4")]
+    build_harness()
+
+    def go(d):
+        os.makedirs(SHAPE_BIN, exist_ok=True)
+        base = info()
+        facts = {}
+        for sh in SHAPES:
+            p = run(["cargo", "build", "--release", "--offline", "--bins", "--features", "shape_" + sh,
+                     "--target-dir", "target-shapes"], 1800, cwd=HARNESS,
+                    env={"CARGO_NET_OFFLINE": "true"}, ok_codes=None)
+            if p.returncode != 0:
+                raise ToolError("the harness (shape %s) does not build against %s:\n%s" % (sh, REPO, p.stderr[-3000:]))
+            for b in ("run", "info"):
+                shutil.copy(os.path.join(HARNESS, "target-shapes", "release", b), os.path.join(SHAPE_BIN, b + "-" + sh))
+            f = json.loads(run([os.path.join(SHAPE_BIN, "info-" + sh)], 60).stdout)
+            facts[sh] = f
+            # vacuity guard: the shape is what it claims to be, and TLC's expectations still apply
+            want_nd = {"plainkey": [False, True], "plainval": [True, False], "padded": [True, True]}[sh]
+            if f["shape"] != sh or f["needs_drop"] != want_nd or f["overhead"] != base["overhead"]:
+                raise ToolError("type shape %s is not what it should be: %s" % (sh, f))
+            if sh == "padded" and f["key_size"] + f["value_size"] + 24 >= f["overhead"]:
+                raise ToolError("type shape padded has no padding: %s" % f)
+        results = []
+        procs = []
+        for sh in SHAPES:
+            for which, dump, universe in dumps:
+                for h, k in (("default", "owned"), ("const", "borrowed")):
+                    mm = os.path.join(d, "mm-%s-%s-%s.ndjson" % (sh, which, h))
+                    cmd = [os.path.join(SHAPE_BIN, "run-" + sh), "--script", dump["script"], "--hasher", h,
+                           "--keyform", k, "--universe", universe, "--seed", "0", "--compare",
+                           "--mismatches", mm, "--max-mismatches", "50"]
+                    procs.append((sh, which, dump["script"], universe, h, k, mm,
+                                  subprocess.Popen(cmd, stdout=subprocess.PIPE, stderr=subprocess.PIPE,
+                                                   text=True, preexec_fn=limits())))
+        for sh, which, script, universe, h, k, mm, p in procs:
+            try:
+                out, err = p.communicate(timeout=3600)
+            except subprocess.TimeoutExpired:
+                p.kill()
+                raise ToolError("shape replay timeout")
+            summ = None
+            crashed = p.returncode != 0
+            try:
+                summ = json.loads(out.strip().splitlines()[-1])
+            except Exception:
+                crashed = True
+            results.append({"shape": sh, "tour": which, "script": script, "universe": int(universe),
+                            "hasher": h, "keyform": k, "summary": summ, "mismatches": read_ndjson(mm),
+                            "crashed": crashed, "returncode": p.returncode, "stderr": err[-2000:]})
+        return {"facts": facts, "configs": results}
+    return cached("shapes-" + tier, source_hash() + "-" + spec_hash() + "-" + str(info()["overhead"]), go)
+
+
+def shapes_into(prop, tier, fnd, cov):
+    """findings of the type-shape replays that belong to `prop`"""
+    rep = stage_shapes(tier)
+    executed = 0
+    for c in rep["configs"]:
+        if c["crashed"]:
+            if prop in ("C07", "C06"):
+                fnd.add("shape_replayer_crash", "replayer process (type shape %s) died (rc %s) under %s/%s: %s" %
+                        (c["shape"], c["returncode"], c["hasher"], c["keyform"], c["stderr"][-300:]),
+                        {"kind": "replay-crash", "script": c["script"], "hasher": c["hasher"],
+                         "keyform": c["keyform"], "shape": c["shape"]})
+            continue
+        executed += c["summary"]["executed"]
+        mine = []
+        sigs = set()
+        for m in c["mismatches"]:
+            sig = "replay:%s:%s" % (m["op"], m["facet"])
+            if prop in replay_owners(m) and sig not in sigs:
+                sigs.add(sig)
+                mine.append(m)
+        segs = script_segments(c["script"], [m["line"] for m in mine[:4]])
+        for m in mine[:4]:
+            fnd.add("replay:%s:%s" % (m["op"], m["facet"]),
+                    "replay with type shape %s, %s/%s, %s tour line %d op %s facet %s: expected %s, real cache gave %s" %
+                    (c["shape"], c["hasher"], c["keyform"], c["tour"], m["line"], m["op"], m["facet"],
+                     json.dumps(m["expected"])[:300], json.dumps(m["actual"])[:300]),
+                    {"kind": "replay", "shape": c["shape"], "hasher": c["hasher"], "keyform": c["keyform"],
+                     "universe": c["universe"], "ops": segs.get(m["line"], []), "facet": m["facet"],
+                     "expected": m["expected"], "actual": m["actual"]})
+    cov["type_shapes"] = {"shapes": list(SHAPES), "facts": rep["facts"],
+                          "runs": len(rep["configs"]), "replayed_steps": executed}
+    cov["replayed_steps"] = cov.get("replayed_steps", 0) + executed
+
+
 def stage_segments(tier, segfile, name, universe="3", configs=None):
     """execute segment files (forgotten iterators, crash sweeps) on the real cache and let
     TLC validate every recorded event"""
@@ -1226,6 +1327,7 @@ def collect_core(prop, tier, fnd, cov):
                          "actual": m["actual"]})
     cov["replay_configurations"] = nconf
     cov["replayed_steps"] = executed
+    shapes_into(prop, tier, fnd, cov)
     drv = stage_drive(tier)
     collect_drive(prop, drv, fnd, cov)
     if prop in ("C01", "C02", "C04", "C07"):
@@ -1414,12 +1516,19 @@ def do_replay(path):
         events = os.path.join(d, "events.ndjson")
         mm = os.path.join(d, "mm.ndjson")
         extra = ["--roguard", os.path.join(d, "rog")] if rp.get("facet") == "roguard" else []
-        p = run([os.path.join(BIN, "run"), "--script", script, "--hasher", hasher, "--keyform", keyform,
+        binary = os.path.join(BIN, "run")
+        if rp.get("shape"):
+            stage_shapes(os.environ.get("VERIF_TIER", "quick"))
+            binary = os.path.join(SHAPE_BIN, "run-" + rp["shape"])
+        p = run([binary, "--script", script, "--hasher", hasher, "--keyform", keyform,
                  "--universe", universe, "--events", events, "--compare", "--mismatches", mm] + extra, 600,
                 ok_codes=None)
         print("run exit", p.returncode, p.stdout[-600:])
         if os.path.exists(mm):
             print(open(mm).read()[:3000])
+        if rp.get("shape"):
+            # synthesized drops of untracked objects are not part of the trace format
+            return 1 if (os.path.getsize(mm) > 0 or p.returncode != 0) else 0
         w = spec_workdir(d)
         v = validate_trace(w, events)
         print(json.dumps(v["bad"])[:3000])
